@@ -200,6 +200,24 @@ CLAIMED["C02"] = dict(
    technique="Coq proof (real algebra of the stable roots, induction over passes) + AST translator + correspondence",
    design="DESIGN.md section 4, C02")
 
+CLAIMED["C11"] = dict(
+   text="Coq theorems over mathcomp matrices on R, for every size n: for unit lower-triangular L and upper-triangular U "
+        "with positive diagonal, det(L U) > 0 and log|det(L U)| is the sum of the logs of U's diagonal (= logabsdet()), "
+        "forward is x -> (L U) x + b, solving with L then U inverts W and undoes the forward pass; a Householder "
+        "reflection I - c v v^T with c |v|^2 = 2 is symmetric and an involution; ANY sequence of reflections (any "
+        "count, any non-zero vectors) is orthogonal with log|det| = 0; for W = Q R and W = U D V^T the log|det| is "
+        "the sum of the logs of the triangular / diagonal factor's diagonal and R^-1 Q^T inverts Q R. The construction "
+        "of these matrices from the parameter vectors (tril/triu index order, softplus+eps / exp diagonals, "
+        "reflection application) is an executable list-of-rows model extracted to OCaml and compared with weight(), "
+        "weight_inverse(), logabsdet(), matrix(), forward and inverse of the real classes for sizes 1..6 and "
+        "Householder counts 1..14; the search checks W W^-1 = I, forward = W x + b, slogdet(W) = logabsdet(), "
+        "Q^T Q = I, finiteness and that every constructor-accepted size / count / init mode yields a usable transform.",
+   note="Trusted: Coq kernel; Reals axioms + ClassicalEpsilon.constructive_indefinite_description; extraction; harness; "
+        "torch.slogdet / lu_solve / solve_triangular contracts for NaiveLinear. The shape of the constructed matrices "
+        "is established by correspondence, not by proof.",
+   technique="Coq proof (mathcomp det_mulmx / det_trig, matrix algebra) + extracted-model correspondence",
+   design="DESIGN.md section 4, C11")
+
 def main():
     checks = []
     for pid in ALL:
